@@ -217,6 +217,7 @@ Section GnodeInd.
   Hypothesis HL : forall uid key inf natives fails, P (GLambda uid key inf natives fails).
   Hypothesis HP : forall uid key, P (GPass uid key).
   Hypothesis HS : forall uid key inf stages, Forall (Forall P) stages -> P (GSub uid key inf stages).
+  Hypothesis HT : forall uid key inf calls, P (GTools uid key inf calls).
 
   Fixpoint gnode_ind' (n : gnode) : P n :=
     match n with
@@ -236,6 +237,7 @@ Section GnodeInd.
                          end) st)
                      (fs l')
                end) stages)
+    | GTools uid key inf calls => HT uid key inf calls
     end.
 End GnodeInd.
 
@@ -313,12 +315,13 @@ Fixpoint node_fails (opts : list copt) (n : gnode) {struct n} : bool :=
   | GSub _ key _ stages =>
       let sopts := sub_opts key opts in
       negb (graph_ok stages sopts) || existsb (existsb (node_fails sopts)) stages
+  | GTools _ _ _ calls => existsb call_fails calls
   end.
 
 Lemma node_ops_fails is_stream n : forall parent opts,
   snd (node_ops is_stream parent opts n) = node_fails opts n.
 Proof.
-  induction n as [uid key inf natives fails|uid key|uid key inf stages IH] using gnode_ind'; intros parent opts; simpl; auto.
+  induction n as [uid key inf natives fails|uid key|uid key inf stages IH|uid key inf calls] using gnode_ind'; intros parent opts; simpl; auto.
   unfold graph_body. destruct (graph_ok stages (sub_opts key opts)); simpl; auto.
   rewrite stages_body_exec. simpl.
   apply rs_failed_map. intros st m Hs Hm. apply (FF_in _ _ _ _ IH Hs Hm).
@@ -327,7 +330,7 @@ Qed.
 Lemma node_prog_fails is_stream n : forall parent opts,
   snd (node_prog is_stream parent opts n) = node_fails opts n.
 Proof.
-  induction n as [uid key inf natives fails|uid key|uid key inf stages IH] using gnode_ind'; intros parent opts; simpl; auto.
+  induction n as [uid key inf natives fails|uid key|uid key inf stages IH|uid key inf calls] using gnode_ind'; intros parent opts; simpl; auto.
   unfold graph_body_prog. destruct (graph_ok stages (sub_opts key opts)); simpl; auto.
   apply rs_failed_map. intros st m Hs Hm. apply (FF_in _ _ _ _ IH Hs Hm).
 Qed.
@@ -335,7 +338,7 @@ Qed.
 Lemma node_table_fails is_stream n : forall inh opts,
   snd (node_table is_stream inh opts n) = node_fails opts n.
 Proof.
-  induction n as [uid key inf natives fails|uid key|uid key inf stages IH] using gnode_ind'; intros inh opts; simpl; auto.
+  induction n as [uid key inf natives fails|uid key|uid key inf stages IH|uid key inf calls] using gnode_ind'; intros inh opts; simpl; auto.
   unfold body_table. destruct (graph_ok stages (sub_opts key opts)); simpl; auto.
   apply rs_failed_map. intros st m Hs Hm. apply (FF_in _ _ _ _ IH Hs Hm).
 Qed.
@@ -374,7 +377,7 @@ Qed.
 Lemma flatten_node_prog is_stream n : forall parent opts,
   flatten (fst (node_prog is_stream parent opts n)) = fst (node_ops is_stream parent opts n).
 Proof.
-  induction n as [uid key inf natives fails|uid key|uid key inf stages IH] using gnode_ind'; intros parent opts.
+  induction n as [uid key inf natives fails|uid key|uid key inf stages IH|uid key inf calls] using gnode_ind'; intros parent opts.
   - simpl. reflexivity.
   - reflexivity.
   - cbn [node_prog node_ops fst flatten]. cbn [app]. f_equal.
@@ -382,6 +385,9 @@ Proof.
     + intros; apply node_prog_fails.
     + intros; apply node_ops_fails.
     + intros st m Hs Hm. apply (FF_in _ _ _ _ IH Hs Hm).
+  - cbn [node_prog node_ops fst flatten]. cbn [app]. f_equal. f_equal. f_equal.
+    rewrite flatten_par_list, map_map, flat_map_concat_map. f_equal.
+    apply map_ext. intros c. apply flatten_atoms.
 Qed.
 
 (* the left-to-right schedule of the program of a graph run is the canonical operation list
@@ -457,13 +463,19 @@ Qed.
 Lemma node_ops_units is_stream n : forall parent opts o,
   In o (fst (node_ops is_stream parent opts n)) -> In (op_unit o) (uids n).
 Proof.
-  induction n as [uid key inf natives fails|uid key|uid key inf stages IH] using gnode_ind'; intros parent opts o.
+  induction n as [uid key inf natives fails|uid key|uid key inf stages IH|uid key inf calls] using gnode_ind'; intros parent opts o.
   - simpl. intros [<-|[<-|[<-|[]]]]; simpl; auto.
   - simpl. intros [<-|[]]; simpl; auto.
   - cbn [node_ops fst uids]. intros [<-|H]; [left; reflexivity|].
     apply graph_body_in in H. destruct H as [[t ->]|(st & m & Hs & Hm & Ho)]; [left; reflexivity|].
     right. fold (stages_uids stages). eapply in_stages_uids; eauto.
     eapply (FF_in _ _ _ _ IH Hs Hm); eauto.
+  - cbn [node_ops fst uids]. intros [<-|[<-|H]]; [left; reflexivity | left; reflexivity|].
+    apply in_app_or in H. destruct H as [H|[<-|[]]]; [|left; reflexivity].
+    right. apply in_flat_map in H. destruct H as (c & Hc & Ho).
+    apply in_map_iff. exists c. split; auto.
+    destruct c as [[[cu cinf] natives] fails]. simpl in Ho.
+    destruct Ho as [<-|[<-|[<-|[]]]]; reflexivity.
 Qed.
 
 Lemma node_prog_units is_stream n parent opts o :
@@ -801,13 +813,16 @@ Qed.
 Lemma node_table_units is_stream n : forall inh opts e,
   In e (fst (node_table is_stream inh opts n)) -> In (ue_unit e) (uids n).
 Proof.
-  induction n as [uid key inf natives fails|uid key|uid key inf stages IH] using gnode_ind'; intros inh opts e.
+  induction n as [uid key inf natives fails|uid key|uid key inf stages IH|uid key inf calls] using gnode_ind'; intros inh opts e.
   - simpl. intros [<-|[]]. simpl. auto.
   - simpl. intros [<-|[]]. simpl. auto.
   - cbn [node_table fst uids]. intros [<-|H]; [left; reflexivity|]. right.
     unfold body_table in H. destruct (graph_ok stages (sub_opts key opts)); cbn [negb fst] in H; [|contradiction].
     eapply stages_table_units; eauto.
     intros st m e0 Hs Hm He0. eapply (FF_in _ _ _ _ IH Hs Hm); eauto.
+  - cbn [node_table fst uids]. intros [<-|H]; [left; reflexivity|]. right.
+    apply in_map_iff in H. destruct H as (c & <- & Hc).
+    apply in_map_iff. exists c. split; auto. destruct c as [[[cu cinf] natives] fails]. reflexivity.
 Qed.
 
 Section Engine2.
@@ -853,9 +868,180 @@ Section Engine2.
     rewrite Eo. clear. induction ons as [|t ons IH]; simpl; auto. now rewrite sevents_served, IH.
   Qed.
 
+  (* ---- a ToolsNode and its tool calls *)
+
+  Lemma sevents_reuse u cinf inf0 l0 t :
+    sevents w u (match snew w inf0 l0 with None => None | Some (l, _) => Some (l, cinf) end) t
+    = served w u cinf l0 t.
+  Proof.
+    unfold snew, served. destruct (_ =? 0)%nat eqn:E; simpl; auto.
+    apply Nat.eqb_eq in E.
+    assert (l0 = [] /\ w_globals w = []) as [-> G].
+    { destruct l0; simpl in E; [|lia]. destruct (w_globals w); simpl in E; [auto|lia]. }
+    rewrite G. unfold events_of, select, invoke_order. simpl. destruct (is_start t); reflexivity.
+  Qed.
+
+  (* a tool call: ReuseHandlers on the ToolsNode's context, then its On operations *)
+  Lemma call_sound tn cu cinf ons ss T inf0 l0 :
+    lookup tn (ss_ctxs ss) = Some (snew w inf0 l0) ->
+    no_rebind tn T ->
+    lookup cu (ss_ctxs ss) = None ->
+    filter (touches [cu]) T = OReuse tn cu cinf :: map (OOn cu) ons ->
+    logu (run ss T) cu = logu ss cu ++ flat_map (served w cu cinf l0) ons.
+  Proof.
+    intros Hp NR Hu HF.
+    destruct (filter_split _ _ _ _ HF) as (T1 & T2 & -> & F1 & F2).
+    assert (NR1 : no_rebind tn T1) by (intros o Ho; apply NR; apply in_or_app; auto).
+    assert (Fr : forall o, In o T1 -> creates o <> Some cu)
+      by (apply (no_touch_no_rebind [cu]); [left; auto | auto]).
+    destruct (spec_no_events_before w T1 ss cu Hu Fr) as [F0 _].
+    replace (T1 ++ OReuse tn cu cinf :: T2) with ((T1 ++ [OReuse tn cu cinf]) ++ T2)
+      by (rewrite <- app_assoc; reflexivity).
+    rewrite run_app. rewrite run_app. cbn [run_spec_from fold_left].
+    set (ss1 := sstep w (run ss T1) (OReuse tn cu cinf)) in *.
+    assert (L1 : lookup cu (ss_ctxs ss1) =
+                 Some (match snew w inf0 l0 with None => None | Some (l, _) => Some (l, cinf) end) /\
+                 ss_log ss1 = ss_log (run ss T1)).
+    { unfold ss1. simpl. rewrite (spec_lookup_stable w T1 ss tn NR1), Hp. simpl.
+      rewrite N.eqb_refl. auto. }
+    destruct L1 as [Lu Lg].
+    assert (NR2 : no_rebind cu T2).
+    { intros o Ho Hc. assert (Hin : In o (filter (touches [cu]) T2)).
+      { apply filter_In. split; auto. apply touches_In. rewrite (creates_op_unit o cu Hc). left; auto. }
+      rewrite F2 in Hin. apply in_map_iff in Hin. destruct Hin as (t & <- & _). discriminate. }
+    unfold logu. change (fold_left (sstep w) T2 ss1) with (run ss1 T2).
+    rewrite (spec_unit_log w T2 ss1 cu _ Lu NR2). rewrite Lg. unfold logu in F0. rewrite F0. f_equal.
+    assert (Eo : ons_of cu T2 = ons).
+    { rewrite (ons_of_filter cu T2).
+      assert (E : filter (mentions cu) T2 = filter (touches [cu]) T2).
+      { apply filter_ext. intros o. rewrite mentions_op_unit. unfold touches. simpl. now rewrite orb_false_r. }
+      rewrite E, F2. clear. induction ons as [|t ons IH]; simpl; auto.
+      unfold ons_of in *. simpl. rewrite N.eqb_refl. simpl. now rewrite IH. }
+    rewrite Eo. clear. induction ons as [|t ons IH]; simpl; auto. now rewrite sevents_reuse, IH.
+  Qed.
+
+  Definition call_unit (c : ukey * info * N * bool) : ukey := fst (fst (fst c)).
+
+  Lemma call_ops_units tn c o : In o (call_ops is_stream tn c) -> op_unit o = call_unit c.
+  Proof.
+    destruct c as [[[cu cinf] natives] fails]. simpl. intros [<-|[<-|[<-|[]]]]; reflexivity.
+  Qed.
+
+  Lemma tools_sound uid key inf calls : node_sound_stmt w is_stream (GTools uid key inf calls).
+  Proof.
+    intros parent opts ss T c_p Hp NR Hfresh HT ND Hpar e He.
+    cbn [node_prog fst uids] in HT.
+    change (map (fun c : ukey * info * N * bool => fst (fst (fst c))) calls) with (map call_unit calls) in *.
+    cbn [uids] in Hfresh, ND, Hpar.
+    change (map (fun c : ukey * info * N * bool => fst (fst (fst c))) calls) with (map call_unit calls) in *.
+    set (U := uid :: map call_unit calls) in *.
+    set (p3 := pick_native is_stream 3) in *.
+    apply traces_seq_atom in HT. destruct HT as (tb & HF & Htb).
+    destruct (filter_split _ _ _ _ HF) as (T1 & T2 & -> & F1 & F2).
+    set (c := OAppend (Some parent) uid inf (designated key opts)) in *.
+    assert (NR1 : no_rebind parent T1) by (intros o Ho; apply NR; apply in_or_app; auto).
+    destruct (create_step w ss T1 parent uid inf (designated key opts) c_p Hp NR1) as (Lu & Lg & Lo).
+    fold c in Lu, Lg, Lo.
+    replace (T1 ++ c :: T2) with ((T1 ++ [c]) ++ T2) by (rewrite <- app_assoc; reflexivity).
+    rewrite run_app. rewrite run_app. cbn [run_spec_from fold_left].
+    set (ss1 := sstep w (run ss T1) c) in *.
+    change (fold_left (sstep w) T2 ss1) with (run ss1 T2).
+    set (L := slist c_p ++ List.concat (designated key opts)) in *.
+    assert (Hbefore : forall v, In v U -> logu ss1 v = logu ss v /\ (v <> uid -> lookup v (ss_ctxs ss1) = None)).
+    { intros v Hv.
+      assert (Fr : forall o, In o T1 -> creates o <> Some v) by (apply (no_touch_no_rebind U); auto).
+      destruct (spec_no_events_before w T1 ss v (Hfresh v Hv) Fr) as [F0 L0].
+      split.
+      - unfold logu. rewrite Lg. exact F0.
+      - intros Hne. rewrite (Lo v Hne). exact L0. }
+    apply NoDup_cons_iff in ND. destruct ND as [Hk NDk].
+    rewrite <- F2 in Htb.
+    set (body := PSeq (PAtom (OOn uid (start_timing_of p3)))
+                   (PSeq (par_list (map (fun c0 => atoms (call_ops is_stream uid c0)) calls))
+                      (PAtom (OOn uid (if existsb call_fails calls then TError else end_timing_of p3))))) in *.
+    (* the operations of the calls *)
+    assert (Hpc : forall o, In o (flatten (par_list (map (fun c0 => atoms (call_ops is_stream uid c0)) calls))) ->
+                   In (op_unit o) (map call_unit calls)).
+    { intros o Ho. rewrite flatten_par_list, map_map in Ho. apply in_concat in Ho.
+      destruct Ho as (l & Hl & Hol). apply in_map_iff in Hl. destruct Hl as (c0 & <- & Hc0).
+      rewrite flatten_atoms in Hol. apply call_ops_units in Hol. rewrite Hol. now apply in_map. }
+    assert (Hbody_ops : forall o, In o (flatten body) -> (exists t, o = OOn uid t) \/ In (op_unit o) (map call_unit calls)).
+    { intros o Ho. unfold body in Ho. cbn [flatten app] in Ho. destruct Ho as [<-|Ho]; [left; eauto|].
+      apply in_app_or in Ho. destruct Ho as [Ho|[<-|[]]]; [right; auto | left; eauto]. }
+    assert (NRu : no_rebind uid T2).
+    { intros o Ho Hc.
+      assert (Hin : In o (filter (touches U) T2)).
+      { apply filter_In. split; auto. apply touches_In. rewrite (creates_op_unit o uid Hc). left; auto. }
+      apply (traces_in _ _ Htb) in Hin. apply Hbody_ops in Hin.
+      destruct Hin as [[t ->]|Hin]; [discriminate|].
+      rewrite (creates_op_unit o uid Hc) in Hin. contradiction. }
+    cbn [node_table fst] in He. fold p3 in He. fold L in He.
+    destruct He as [<-|He].
+    - (* the ToolsNode itself *)
+      cbn [ue_unit]. unfold logu.
+      rewrite (spec_unit_log w T2 ss1 uid _ Lu NRu).
+      unfold logu in Hbefore. rewrite (proj1 (Hbefore uid (or_introl eq_refl))). f_equal.
+      assert (Hons : ons_of uid T2 = [start_timing_of p3; if existsb call_fails calls then TError else end_timing_of p3]).
+      { rewrite (ons_of_filter uid T2).
+        assert (E1 : filter (mentions uid) T2 = filter (mentions uid) (filter (touches U) T2)).
+        { symmetry. apply filter_filter_incl. intros o Ho. rewrite mentions_op_unit in Ho.
+          apply N.eqb_eq in Ho. apply touches_In. left; auto. }
+        rewrite E1, (proj_filter (mentions uid) _ _ Htb).
+        - unfold body. cbn [flatten app]. rewrite filter_mentions_on, filter_app.
+          assert (Nf : filter (mentions uid) (flatten (par_list (map (fun c0 => atoms (call_ops is_stream uid c0)) calls))) = []).
+          { apply filter_nil_iff. intros o Ho. apply Hpc in Ho.
+            rewrite mentions_op_unit. apply N.eqb_neq. intros E. rewrite E in Ho. contradiction. }
+          rewrite Nf. cbn [app]. rewrite filter_mentions_on. cbn [filter]. apply ons_of_two.
+        - unfold body. cbn [par_ok]. split; [exact I|]. split; [|exact I].
+          apply par_ok_nof. intros o Ho. apply Hpc in Ho.
+          rewrite mentions_op_unit. apply N.eqb_neq. intros E. rewrite E in Ho. contradiction. }
+      rewrite Hons. unfold uexp_events. cbn [ue_unit ue_info ue_list ue_timings]. apply sevents_two.
+    - (* a tool call *)
+      apply in_map_iff in He. destruct He as (c0 & <- & Hc0).
+      apply in_split in Hc0. destruct Hc0 as (c1 & c2 & Hcalls).
+      destruct c0 as [[[cu cinf] natives] fails]. cbn [call_uexp ue_unit].
+      assert (HcuU : In cu U).
+      { right. rewrite Hcalls, map_app. apply in_or_app. right. left. reflexivity. }
+      assert (Hcu_ne : cu <> uid).
+      { intros ->. apply Hk. rewrite Hcalls, map_app. apply in_or_app. right. left. reflexivity. }
+      destruct (Hbefore cu HcuU) as [Hl0 Hn0]. rewrite <- Hl0.
+      unfold uexp_events. cbn [ue_unit ue_info ue_list ue_timings].
+      apply (call_sound uid cu cinf
+               [start_timing_of (pick_native is_stream natives);
+                if fails then TError else end_timing_of (pick_native is_stream natives)]
+               ss1 T2 inf L Lu NRu (Hn0 Hcu_ne)).
+      assert (E0 : filter (touches [cu]) T2 = filter (touches [cu]) (filter (touches U) T2)).
+      { symmetry. apply filter_filter_incl. intros o Ho. apply touches_In in Ho. apply touches_In.
+        destruct Ho as [<-|[]]. exact HcuU. }
+      rewrite E0.
+      assert (Hsub : sub_at (touches [cu]) body (atoms (call_ops is_stream uid (cu, cinf, natives, fails)))).
+      { unfold body. apply SA_seq_r.
+        { intros o [<-|[]]. apply touches_false. simpl. intros [E|[]]. congruence. }
+        apply SA_seq_l.
+        2:{ intros o [<-|[]]. apply touches_false. simpl. intros [E|[]]. congruence. }
+        rewrite Hcalls, map_app. cbn [map].
+        assert (Hother : forall c', In c' (c1 ++ c2) -> nof (touches [cu]) (atoms (call_ops is_stream uid c'))).
+        { intros c' Hc' o Ho. rewrite flatten_atoms in Ho. apply call_ops_units in Ho.
+          apply touches_false. rewrite Ho. simpl. intros [E|[]].
+          rewrite Hcalls, map_app in NDk. cbn [map] in NDk.
+          apply in_app_or in Hc'. destruct Hc' as [Hc'|Hc'].
+          - apply (NoDup_app_disj _ _ cu NDk); [apply in_map_iff; eauto | left; reflexivity].
+          - apply NoDup_app_r in NDk. apply NoDup_cons_iff in NDk. destruct NDk as [Hn _].
+            apply Hn. apply in_map_iff. eauto. }
+        apply sub_at_par_list.
+        - apply Forall_forall. intros q Hq. apply in_map_iff in Hq. destruct Hq as (c' & <- & Hc').
+          apply Hother. apply in_or_app. auto.
+        - apply SA_here. intros o Ho. rewrite flatten_atoms in Ho. apply call_ops_units in Ho.
+          apply touches_In. rewrite Ho. left. reflexivity.
+        - apply Forall_forall. intros q Hq. apply in_map_iff in Hq. destruct Hq as (c' & <- & Hc').
+          apply Hother. apply in_or_app. auto. }
+      pose proof (proj_traces _ _ _ _ Htb Hsub) as Hc.
+      apply traces_atoms in Hc. rewrite Hc. reflexivity.
+  Qed.
+
   Theorem node_sound n : node_sound_stmt w is_stream n.
   Proof.
-    induction n as [uid key inf natives fails|uid key|uid key inf stages IH] using gnode_ind';
+    induction n as [uid key inf natives fails|uid key|uid key inf stages IH|uid key inf calls] using gnode_ind';
       intros parent opts ss T c_p Hp NR Hfresh HT ND Hpar e He.
     - (* a lambda node *)
       cbn [node_table fst] in He. destruct He as [<-|[]]. cbn [ue_unit].
@@ -916,6 +1102,7 @@ Section Engine2.
         unfold body_table in He. destruct (graph_ok stages (sub_opts key opts)); cbn [negb fst] in He; [|contradiction].
         unfold stages_uids. eapply stages_table_units; eauto.
         intros st m e0 Hs Hm He0. eapply node_table_units; eauto.
+    - exact (tools_sound uid key inf calls parent opts ss T c_p Hp NR Hfresh HT ND Hpar e He).
   Qed.
 End Engine2.
 
@@ -1026,7 +1213,7 @@ Lemma node_ons_in_table is_stream n : forall parent opts inh u tm,
   In (OOn u tm) (fst (node_ops is_stream parent opts n)) ->
   exists e, In e (fst (node_table is_stream inh opts n)) /\ ue_unit e = u /\ In tm (ue_timings e).
 Proof.
-  induction n as [uid key inf natives fails|uid key|uid key inf stages IH] using gnode_ind'; intros parent opts inh u tm.
+  induction n as [uid key inf natives fails|uid key|uid key inf stages IH|uid key inf calls] using gnode_ind'; intros parent opts inh u tm.
   - cbn [node_ops fst]. intros [H|[H|[H|[]]]]; try discriminate; injection H as <- <-;
       eexists; (split; [left; reflexivity|]); cbn [ue_unit ue_timings]; (split; [reflexivity|]); simpl; auto.
   - cbn [node_ops fst]. intros [H|[]]. discriminate.
@@ -1037,6 +1224,15 @@ Proof.
       * eexists. split; [left; reflexivity|]. cbn [ue_unit ue_timings]. auto.
       * exists e. split; [right; exact He | auto].
     + intros st m Hs Hm p Ho. eapply (FF_in _ _ _ _ IH Hs Hm); eauto.
+  - cbn [node_ops fst node_table]. intros [H|[H|H]]; [discriminate| |].
+    + injection H as <- <-. eexists. split; [left; reflexivity|]. cbn [ue_unit ue_timings]. simpl; auto.
+    + apply in_app_or in H. destruct H as [H|[H|[]]].
+      * apply in_flat_map in H. destruct H as (c & Hc & Ho).
+        exists (call_uexp is_stream (inh ++ List.concat (designated key opts)) c).
+        split; [right; now apply in_map|].
+        destruct c as [[[cu cinf] natives] fails]. cbn [call_ops] in Ho. cbn [call_uexp ue_unit ue_timings].
+        destruct Ho as [Ho|[Ho|[Ho|[]]]]; try discriminate; injection Ho as <- <-; simpl; auto.
+      * injection H as <- <-. eexists. split; [left; reflexivity|]. cbn [ue_unit ue_timings]. simpl; auto.
 Qed.
 
 Lemma graph_ons_in_table is_stream g ginf opts stages u tm :
@@ -1156,7 +1352,7 @@ Lemma node_table_timings is_stream n : forall inh opts e,
   In e (fst (node_table is_stream inh opts n)) ->
   ue_timings e = [] \/ exists s f, ue_timings e = [s; f] /\ is_start s = true /\ is_start f = false.
 Proof.
-  induction n as [uid key inf natives fails|uid key|uid key inf stages IH] using gnode_ind'; intros inh opts e.
+  induction n as [uid key inf natives fails|uid key|uid key inf stages IH|uid key inf calls] using gnode_ind'; intros inh opts e.
   - simpl. intros [<-|[]]. right. cbn [ue_timings]. do 2 eexists. split; [reflexivity|].
     split; [apply start_timing_is_start|]. destruct fails; [reflexivity | apply end_timing_is_end].
   - simpl. intros [<-|[]]. left. reflexivity.
@@ -1165,6 +1361,12 @@ Proof.
     + unfold body_table in H. destruct (graph_ok stages (sub_opts key opts)); cbn [negb fst] in H; [|contradiction].
       eapply stages_table_timings; eauto.
       intros st m e0 Hs Hm He0. eapply (FF_in _ _ _ _ IH Hs Hm); eauto.
+  - cbn [node_table fst]. intros [<-|H].
+    + right. cbn [ue_timings]. do 2 eexists. split; [reflexivity|].
+      split; [apply start_timing_is_start|]. destruct (existsb call_fails calls); [reflexivity | apply end_timing_is_end].
+    + apply in_map_iff in H. destruct H as (c & <- & Hc). destruct c as [[[cu cinf] natives] fails].
+      right. cbn [call_uexp ue_timings]. do 2 eexists. split; [reflexivity|].
+      split; [apply start_timing_is_start|]. destruct fails; [reflexivity | apply end_timing_is_end].
 Qed.
 
 Lemma graph_table_timings is_stream g ginf opts stages e :
@@ -1270,4 +1472,558 @@ Lemma traces_flatten_rl p : traces p (flatten_rl p).
 Proof.
   induction p as [|o|a IHa b IHb|a IHa b IHb]; simpl; try constructor; auto.
   econstructor; eauto. apply merge_app_rev.
+Qed.
+
+(* ---------------------------------------------------------------- which handlers a unit is served: node paths *)
+
+Lemma node_table_p_fails is_stream n : forall inh opts path,
+  snd (node_table_p is_stream inh opts path n) = node_fails opts n.
+Proof.
+  induction n as [uid key inf natives fails|uid key|uid key inf stages IH|uid key inf calls] using gnode_ind'; intros inh opts path; simpl; auto.
+  unfold body_table. destruct (graph_ok stages (sub_opts key opts)); simpl; auto.
+  apply rs_failed_map. intros st m Hs Hm. apply (FF_in _ _ _ _ IH Hs Hm).
+Qed.
+
+Lemma body_table_p_fst ok stages (Fp : gnode -> list (uexp * list N) * bool) (F : gnode -> list uexp * bool) fl :
+  (forall st m, In st stages -> In m st -> snd (Fp m) = fl m) ->
+  (forall st m, In st stages -> In m st -> snd (F m) = fl m) ->
+  (forall st m, In st stages -> In m st -> map fst (fst (Fp m)) = fst (F m)) ->
+  map fst (fst (body_table ok (map (map Fp) stages))) = fst (body_table ok (map (map F) stages)) /\
+  snd (body_table ok (map (map Fp) stages)) = snd (body_table ok (map (map F) stages)).
+Proof.
+  intros Hp Hf Hm. unfold body_table. destruct ok; cbn [negb]; [|split; reflexivity].
+  unfold stages_table. cbn [fst snd].
+  rewrite (rs_failed_map Fp fl stages Hp), (rs_failed_map F fl stages Hf). split; [|reflexivity].
+  rewrite (exec_rs_map Fp fl stages Hp), (exec_rs_map F fl stages Hf).
+  rewrite concat_map, !map_map. apply concat_map_ext_in. intros st Hst.
+  apply exec_st_incl in Hst. rewrite concat_map, !map_map.
+  apply concat_map_ext_in. intros m Hin. apply (Hm st); auto.
+Qed.
+
+(* the table with paths is the table *)
+Lemma node_table_p_fst is_stream n : forall inh opts path,
+  map fst (fst (node_table_p is_stream inh opts path n)) = fst (node_table is_stream inh opts n).
+Proof.
+  induction n as [uid key inf natives fails|uid key|uid key inf stages IH|uid key inf calls] using gnode_ind'; intros inh opts path.
+  - reflexivity.
+  - reflexivity.
+  - cbn [node_table_p node_table fst map].
+    destruct (body_table_p_fst (graph_ok stages (sub_opts key opts)) stages
+                (node_table_p is_stream (inh ++ List.concat (designated key opts)) (sub_opts key opts) (path ++ [key]))
+                (node_table is_stream (inh ++ List.concat (designated key opts)) (sub_opts key opts))
+                (node_fails (sub_opts key opts))) as [E1 E2].
+    + intros; apply node_table_p_fails.
+    + intros; apply node_table_fails.
+    + intros st m Hs Hm. apply (FF_in _ _ _ _ IH Hs Hm).
+    + rewrite E1, E2. reflexivity.
+  - cbn [node_table_p node_table fst map]. f_equal. rewrite map_map. reflexivity.
+Qed.
+
+Theorem graph_table_p_fst is_stream g ginf opts stages :
+  map fst (graph_table_p is_stream g ginf opts stages) = graph_table is_stream g ginf opts stages.
+Proof.
+  unfold graph_table_p, graph_table. cbv zeta. cbn [map fst].
+  destruct (body_table_p_fst (graph_ok stages opts) stages
+              (node_table_p is_stream (List.concat (undesignated opts)) opts [])
+              (node_table is_stream (List.concat (undesignated opts)) opts)
+              (node_fails opts)) as [E1 E2].
+  - intros; apply node_table_p_fails.
+  - intros; apply node_table_fails.
+  - intros; apply node_table_p_fst.
+  - rewrite E1, E2. reflexivity.
+Qed.
+
+(* the options of one graph level that carry a path q, with their handlers *)
+Definition lvl_has (opts : list copt) (q : list N) (hs : list handler) : Prop :=
+  exists o, In o opts /\ fst o = hs /\ In q (snd o).
+
+Lemma in_designated key opts x :
+  In x (List.concat (designated key opts)) <-> exists hs, In x hs /\ lvl_has opts [key] hs.
+Proof.
+  unfold designated. split.
+  - intros H. apply in_concat in H. destruct H as (hs & Hhs & Hx).
+    apply in_flat_map in Hhs. destruct Hhs as (o & Ho & Hin).
+    destruct (existsb _ (snd o)) eqn:E; [|contradiction]. destruct Hin as [<-|[]].
+    apply existsb_exists in E. destruct E as (p & Hp & Hk).
+    destruct p as [|k [|k2 tl]]; try discriminate. apply N.eqb_eq in Hk. subst k.
+    exists (fst o). split; auto. exists o. auto.
+  - intros (hs & Hx & o & Ho & <- & Hq).
+    apply in_concat. exists (fst o). split; auto.
+    apply in_flat_map. exists o. split; auto.
+    assert (E : existsb (fun p => match p with [k] => N.eqb k key | _ => false end) (snd o) = true).
+    { apply existsb_exists. exists [key]. split; auto. apply N.eqb_refl. }
+    rewrite E. left; auto.
+Qed.
+
+Lemma lvl_has_sub key opts q hs :
+  lvl_has (sub_opts key opts) q hs <-> q <> [] /\ lvl_has opts (key :: q) hs.
+Proof.
+  unfold lvl_has, sub_opts. split.
+  - intros (o' & Ho' & <- & Hq).
+    apply in_flat_map in Ho'. destruct Ho' as (o & Ho & Hin).
+    apply in_flat_map in Hin. destruct Hin as (p & Hp & Hin).
+    destruct p as [|k [|k2 tl]]; try contradiction.
+    destruct (N.eqb k key) eqn:E; [|contradiction]. destruct Hin as [<-|[]].
+    apply N.eqb_eq in E. subst k. simpl in Hq. destruct Hq as [<-|[]].
+    split; [discriminate|]. exists o. auto.
+  - intros (Hne & o & Ho & <- & Hq).
+    destruct q as [|k2 tl]; [contradiction|].
+    exists (fst o, [k2 :: tl]). split; [|split; simpl; auto].
+    apply in_flat_map. exists o. split; auto.
+    apply in_flat_map. exists (key :: k2 :: tl). split; auto.
+    rewrite N.eqb_refl. left; auto.
+Qed.
+
+Lemma in_undesignated opts x :
+  In x (List.concat (undesignated opts)) <-> exists o, In o opts /\ In x (fst o) /\ snd o = [].
+Proof.
+  unfold undesignated. split.
+  - intros H. apply in_concat in H. destruct H as (hs & Hhs & Hx).
+    apply in_flat_map in Hhs. destruct Hhs as (o & Ho & Hin).
+    destruct (snd o) eqn:E; [|contradiction]. destruct Hin as [<-|[]]. eauto.
+  - intros (o & Ho & Hx & E). apply in_concat. exists (fst o). split; auto.
+    apply in_flat_map. exists o. split; auto. rewrite E. left; auto.
+Qed.
+
+Lemma stages_table_p_in (F : gnode -> list (uexp * list N) * bool) stages ep :
+  In ep (fst (stages_table (map (map F) stages))) ->
+  exists st m, In st stages /\ In m st /\ In ep (fst (F m)).
+Proof.
+  unfold stages_table. cbn [fst]. intros Hin.
+  apply in_concat in Hin. destruct Hin as (l & Hl & Hel).
+  apply in_map_iff in Hl. destruct Hl as (str & <- & Hstr).
+  apply exec_rs_incl in Hstr. apply in_map_iff in Hstr. destruct Hstr as (st & <- & Hst).
+  apply in_concat in Hel. destruct Hel as (l2 & Hl2 & Hel2).
+  rewrite map_map in Hl2. apply in_map_iff in Hl2. destruct Hl2 as (m & <- & Hm).
+  eauto.
+Qed.
+
+(* relative to one graph level: the unit's path continues the level's path by q <> [], and
+   its list is the inherited one plus the handlers of the level's options that carry a
+   non-empty prefix of q *)
+Lemma node_table_p_lists is_stream n : forall inh opts path e pe,
+  In (e, pe) (fst (node_table_p is_stream inh opts path n)) ->
+  exists q, pe = path ++ q /\ q <> [] /\
+    forall x, In x (ue_list e) <->
+      In x inh \/ exists hs p, In x hs /\ p <> [] /\ is_prefix p q /\ lvl_has opts p hs.
+Proof.
+  induction n as [uid key inf natives fails|uid key|uid key inf stages IH|uid key inf calls] using gnode_ind'; intros inh opts path e pe.
+  - simpl. intros [H|[]]. injection H as <- <-. exists [key]. split; auto. split; [discriminate|].
+    intros x. cbn [ue_list]. rewrite in_app_iff, in_designated. split.
+    + intros [H|(hs & Hx & Hl)]; auto. right. exists hs, [key]. repeat split; auto; [discriminate | exists []; auto].
+    + intros [H|(hs & p & Hx & Hne & [r Hr] & Hl)]; auto. right. exists hs. split; auto.
+      destruct p as [|k p']; [contradiction|]. simpl in Hr. injection Hr as -> Hr.
+      symmetry in Hr. apply app_eq_nil in Hr. destruct Hr as [-> _]. exact Hl.
+  - simpl. intros [H|[]]. injection H as <- <-. exists [key]. split; auto. split; [discriminate|].
+    intros x. cbn [ue_list]. rewrite in_app_iff, in_designated. split.
+    + intros [H|(hs & Hx & Hl)]; auto. right. exists hs, [key]. repeat split; auto; [discriminate | exists []; auto].
+    + intros [H|(hs & p & Hx & Hne & [r Hr] & Hl)]; auto. right. exists hs. split; auto.
+      destruct p as [|k p']; [contradiction|]. simpl in Hr. injection Hr as -> Hr.
+      symmetry in Hr. apply app_eq_nil in Hr. destruct Hr as [-> _]. exact Hl.
+  - cbn [node_table_p fst]. intros [H|H].
+    + injection H as <- <-. exists [key]. split; auto. split; [discriminate|].
+      intros x. cbn [ue_list]. rewrite in_app_iff, in_designated. split.
+      * intros [H|(hs & Hx & Hl)]; auto. right. exists hs, [key]. repeat split; auto; [discriminate | exists []; auto].
+      * intros [H|(hs & p & Hx & Hne & [r Hr] & Hl)]; auto. right. exists hs. split; auto.
+        destruct p as [|k p']; [contradiction|]. simpl in Hr. injection Hr as -> Hr.
+        symmetry in Hr. apply app_eq_nil in Hr. destruct Hr as [-> _]. exact Hl.
+    + unfold body_table in H. destruct (graph_ok stages (sub_opts key opts)); cbn [negb fst] in H; [|contradiction].
+      apply stages_table_p_in in H. destruct H as (st & m & Hs & Hm & Hin).
+      destruct (FF_in _ _ _ _ IH Hs Hm _ _ _ _ _ Hin) as (q' & Hpe & Hq' & Hx).
+      exists (key :: q'). split; [rewrite Hpe, <- app_assoc; reflexivity|]. split; [discriminate|].
+      intros x. rewrite Hx, in_app_iff, in_designated. split.
+      * intros [[H|(hs & Hxh & Hl)]|(hs & p & Hxh & Hne & [r Hr] & Hl)]; auto.
+        -- right. exists hs, [key]. repeat split; auto; [discriminate | exists q'; auto].
+        -- apply lvl_has_sub in Hl. destruct Hl as [_ Hl].
+           right. exists hs, (key :: p). repeat split; auto; [discriminate|]. exists r. simpl. now rewrite Hr.
+      * intros [H|(hs & p & Hxh & Hne & [r Hr] & Hl)]; auto.
+        destruct p as [|k p']; [contradiction|]. simpl in Hr. injection Hr as -> Hr.
+        destruct p' as [|k2 p''].
+        -- left. right. exists hs. auto.
+        -- right. exists hs, (k2 :: p''). repeat split; auto; [discriminate | exists r; auto |].
+           apply lvl_has_sub. split; [discriminate | auto].
+  - cbn [node_table_p fst]. intros H.
+    assert (Hl : ue_list e = inh ++ List.concat (designated key opts) /\ pe = path ++ [key]).
+    { destruct H as [H|H]; [injection H as <- <-; auto|].
+      apply in_map_iff in H. destruct H as (c & H & _). injection H as <- <-.
+      destruct c as [[[cu cinf] natives] fails]. auto. }
+    destruct Hl as [Hl ->]. exists [key]. split; auto. split; [discriminate|].
+    intros x. rewrite Hl, in_app_iff, in_designated. split.
+    + intros [H0|(hs & Hx & Hlv)]; auto. right. exists hs, [key]. repeat split; auto; [discriminate | exists []; auto].
+    + intros [H0|(hs & p & Hx & Hne & [r Hr] & Hlv)]; auto. right. exists hs. split; auto.
+      destruct p as [|k p']; [contradiction|]. simpl in Hr. injection Hr as -> Hr.
+      symmetry in Hr. apply app_eq_nil in Hr. destruct Hr as [-> _]. exact Hlv.
+Qed.
+
+(* DESIGNATED ONLY THERE, in terms of the call options and node paths: the handler list of a
+   unit of the table consists exactly of the handlers of the options that attach to the
+   unit's node path — options without designation, and options designated to the unit or to
+   a sub graph node enclosing it. *)
+Theorem engine_lists_by_path is_stream g ginf opts stages e pe :
+  In (e, pe) (graph_table_p is_stream g ginf opts stages) ->
+  forall x, In x (ue_list e) <-> exists o, In o opts /\ In x (fst o) /\ attaches o pe.
+Proof.
+  unfold graph_table_p. cbv zeta. intros [H|H] x.
+  - injection H as <- <-. cbn [ue_list]. rewrite in_undesignated. split.
+    + intros (o & Ho & Hx & E). exists o. repeat split; auto. left; auto.
+    + intros (o & Ho & Hx & [E|(p & Hp & Hne & [r Hr])]); [eauto|].
+      symmetry in Hr. apply app_eq_nil in Hr. destruct Hr as [-> _]. contradiction.
+  - unfold body_table in H. destruct (graph_ok stages opts); cbn [negb fst] in H; [|contradiction].
+    apply stages_table_p_in in H. destruct H as (st & m & Hs & Hm & Hin).
+    destruct (node_table_p_lists is_stream m _ _ _ _ _ Hin) as (q & Hpe & Hq & Hx).
+    simpl in Hpe. subst pe. rewrite Hx, in_undesignated. split.
+    + intros [(o & Ho & Hxo & E)|(hs & p & Hxh & Hne & Hpre & o & Ho & <- & Hp)].
+      * exists o. repeat split; auto. left; auto.
+      * exists o. repeat split; auto. right. exists p. auto.
+    + intros (o & Ho & Hxo & [E|(p & Hp & Hne & Hpre)]).
+      * left. eauto.
+      * right. exists (fst o), p. repeat split; auto. exists o. auto.
+Qed.
+
+(* A handler is invoked for a unit only if it is global or some call option attaches it to
+   the unit's node path — in every schedule. *)
+Theorem engine_invoked_only_where_attached w is_stream g ginf opts stages t :
+  NoDup (g :: stages_uids stages) ->
+  traces (graph_prog is_stream g ginf opts stages) t ->
+  forall ev, In ev (st_log (run_script true w t)) ->
+    exists e pe, In (e, pe) (graph_table_p is_stream g ginf opts stages) /\
+      ev_unit ev = ue_unit e /\
+      (In (ev_handler ev) (w_globals w) \/
+       exists o, In o opts /\ In (ev_handler ev) (fst o) /\ attaches o pe).
+Proof.
+  intros ND HT ev Hev.
+  destruct (engine_no_other_events w is_stream g ginf opts stages t ND HT ev Hev) as (e & He & Hu & Hin).
+  rewrite <- graph_table_p_fst in He. apply in_map_iff in He. destruct He as ([e' pe] & <- & He).
+  exists e', pe. split; auto. split; auto. cbn [fst] in *.
+  unfold uexp_events in Hin. apply in_flat_map in Hin. destruct Hin as (tm & _ & Hin).
+  unfold served in Hin. apply in_events_of in Hin. destruct Hin as [Hin _].
+  apply in_select in Hin. apply in_app_or in Hin. destruct Hin as [Hin|Hin]; auto.
+  right. apply (engine_lists_by_path is_stream g ginf opts stages e' pe He). exact Hin.
+Qed.
+
+(* ---------------------------------------------------------------- no operation misses its context *)
+
+(* the context an operation needs exists (otherwise the specification flags the run) *)
+Definition op_ok (ss : sstate) (o : op) : bool :=
+  match o with
+  | ORaw _ _ _ _ _ => true
+  | OAppend None _ _ _ => true
+  | OAppend (Some p) _ _ _ => match lookup p (ss_ctxs ss) with Some _ => true | None => false end
+  | OReuse p _ _ => match lookup p (ss_ctxs ss) with Some _ => true | None => false end
+  | OOn u _ => match lookup u (ss_ctxs ss) with Some _ => true | None => false end
+  | OAlias src _ _ lo hi =>
+      match lookup src (ss_ctxs ss) with
+      | Some (Some (l, _)) => (lo <=? hi)%nat && (hi <=? List.length l)%nat
+      | _ => false
+      end
+  end.
+
+Lemma sstep_bad w ss o : op_ok ss o = true -> ss_bad (sstep w ss o) = ss_bad ss.
+Proof.
+  destruct o as [new inf o0 hs spare | parent new inf opts | p new inf | v t | src new inf lo hi]; simpl; auto.
+  - destruct parent as [p|]; simpl; auto. destruct (lookup p (ss_ctxs ss)); simpl; auto. discriminate.
+  - destruct (lookup p (ss_ctxs ss)); simpl; auto. discriminate.
+  - destruct (lookup v (ss_ctxs ss)) as [[[l i]|]|]; simpl; auto. discriminate.
+  - destruct (lookup src (ss_ctxs ss)) as [[[l i]|]|]; simpl; try discriminate.
+    intros ->. reflexivity.
+Qed.
+
+(* every operation of T that satisfies f finds its context, at the moment it runs *)
+Definition ok_on (w : world) (f : op -> bool) (ss : sstate) (T : list op) : Prop :=
+  forall T1 o T2, T = T1 ++ o :: T2 -> f o = true -> op_ok (run_spec_from w ss T1) o = true.
+
+Lemma all_ok_bad w T : forall ss, ok_on w (fun _ => true) ss T -> ss_bad (run_spec_from w ss T) = ss_bad ss.
+Proof.
+  induction T as [|o T IH]; intros ss H; simpl; auto.
+  rewrite IH.
+  - apply sstep_bad. apply (H [] o T); auto.
+  - intros T1 o' T2 E _. apply (H (o :: T1) o' T2); auto. simpl. now rewrite E.
+Qed.
+
+Lemma ok_on_cons w f ss o T :
+  (f o = true -> op_ok ss o = true) -> ok_on w f (sstep w ss o) T -> ok_on w f ss (o :: T).
+Proof.
+  intros Ho HT T1 o' T2 E Hf. destruct T1 as [|a T1]; simpl in E.
+  - injection E as <- <-. simpl. auto.
+  - injection E as <- E. simpl. apply (HT T1 o' T2); auto.
+Qed.
+
+Lemma ok_on_app w f ss A B :
+  ok_on w f ss A -> ok_on w f (run_spec_from w ss A) B -> ok_on w f ss (A ++ B).
+Proof.
+  revert ss. induction A as [|a A IH]; intros ss HA HB; simpl in *; auto.
+  apply ok_on_cons.
+  - intros Hf. apply (HA [] a A); auto.
+  - apply IH; auto. intros T1 o T2 E Hf. apply (HA (a :: T1) o T2); auto. simpl. now rewrite E.
+Qed.
+
+Lemma ok_on_none w f ss T : filter f T = [] -> ok_on w f ss T.
+Proof.
+  intros F T1 o T2 E Hf. subst T.
+  pose proof (proj1 (filter_nil_iff f _) F o) as N. rewrite N in Hf; [discriminate|].
+  apply in_or_app. right. left. auto.
+Qed.
+
+(* combining two families of operations *)
+Lemma ok_on_or w f g h ss T :
+  (forall o, h o = true -> f o = true \/ g o = true) ->
+  ok_on w f ss T -> ok_on w g ss T -> ok_on w h ss T.
+Proof.
+  intros H Hf Hg T1 o T2 E Hh. destruct (H o Hh); [eapply Hf | eapply Hg]; eauto.
+Qed.
+
+(* after its creation, the On operations of a unit find its context as long as nothing
+   rebinds ... in the specification a context is never removed *)
+Lemma lookup_some_stable w T : forall ss u c,
+  lookup u (ss_ctxs ss) = Some c -> exists c', lookup u (ss_ctxs (run_spec_from w ss T)) = Some c'.
+Proof.
+  induction T as [|o T IH]; intros ss u c H; simpl; eauto.
+  assert (exists c1, lookup u (ss_ctxs (sstep w ss o)) = Some c1) as [c1 H1].
+  { destruct o as [new inf o0 hs spare | parent new inf opts | p new inf | v t | src new inf lo hi]; simpl.
+    - destruct (N.eqb u new); eauto.
+    - destruct (match parent with None => Some None | Some p => lookup p (ss_ctxs ss) end); simpl; eauto.
+      destruct (N.eqb u new); eauto.
+    - destruct (lookup p (ss_ctxs ss)); simpl; eauto. destruct (N.eqb u new); eauto.
+    - destruct (lookup v (ss_ctxs ss)) as [[[l i]|]|]; simpl; eauto.
+    - destruct (lookup src (ss_ctxs ss)) as [[[l i]|]|]; simpl; eauto.
+      destruct (_ && _); simpl; eauto. destruct (N.eqb u new); eauto. }
+  eapply IH; eauto.
+Qed.
+
+(* the On operations of an existing unit are fine *)
+Lemma ok_on_ons w u ss T c :
+  lookup u (ss_ctxs ss) = Some c ->
+  ok_on w (fun o => match o with OOn v _ => N.eqb v u | _ => false end) ss T.
+Proof.
+  intros H T1 o T2 E Hf. destruct o as [| | |v t|]; try discriminate.
+  apply N.eqb_eq in Hf. subst v. simpl.
+  destruct (lookup_some_stable w T1 ss u c H) as [c' ->]. reflexivity.
+Qed.
+
+Lemma filter_touch_single u T : filter (touches [u]) T = filter (mentions u) T.
+Proof. apply filter_ext. intros o. rewrite mentions_op_unit. unfold touches. simpl. now rewrite orb_false_r. Qed.
+
+(* a unit created by AppendHandlers / ReuseHandlers on an existing context, then served *)
+Lemma unit_ok w u c ons ss T p cp :
+  (exists inf dopts, c = OAppend (Some p) u inf dopts) \/ (exists inf, c = OReuse p u inf) ->
+  lookup p (ss_ctxs ss) = Some cp ->
+  filter (touches [u]) T = c :: map (OOn u) ons ->
+  ok_on w (touches [u]) ss T.
+Proof.
+  intros Hc Hp HF.
+  destruct (filter_split _ _ _ _ HF) as (T1 & T2 & -> & F1 & F2).
+  apply ok_on_app; [now apply ok_on_none|].
+  destruct (lookup_some_stable w T1 ss p cp Hp) as [cp' Hp'].
+  apply ok_on_cons.
+  - intros _. destruct Hc as [(inf & dopts & ->)|(inf & ->)]; simpl; now rewrite Hp'.
+  - assert (Hu : exists cu, lookup u (ss_ctxs (sstep w (run_spec_from w ss T1) c)) = Some cu).
+    { destruct Hc as [(inf & dopts & ->)|(inf & ->)]; simpl; rewrite Hp'; simpl; rewrite N.eqb_refl; eauto. }
+    destruct Hu as [cu Hu].
+    intros A o B E Hf.
+    assert (Hin : In o (filter (touches [u]) T2)).
+    { apply filter_In. split; auto. rewrite E. apply in_or_app. right. left. auto. }
+    rewrite F2 in Hin. apply in_map_iff in Hin. destruct Hin as (t & <- & _).
+    apply (ok_on_ons w u _ T2 cu Hu A (OOn u t) B E). simpl. apply N.eqb_refl.
+Qed.
+
+Section EngineOk.
+  Variable w : world.
+  Variable is_stream : bool.
+  Notation run := (run_spec_from w).
+
+  Definition node_ok_stmt (n : gnode) : Prop :=
+    forall parent opts ss T c_p,
+      lookup parent (ss_ctxs ss) = Some c_p ->
+      traces (fst (node_prog is_stream parent opts n)) (filter (touches (uids n)) T) ->
+      NoDup (uids n) ->
+      ok_on w (touches (uids n)) ss T.
+
+  Lemma stages_prog_in g opts stages o :
+    In o (flatten (fst (stages_prog (map (map (node_prog is_stream g opts)) stages)))) ->
+    exists E1 s1 m s2 E2, exec_st (node_fails opts) stages = E1 ++ (s1 ++ m :: s2) :: E2 /\
+                          In o (flatten (fst (node_prog is_stream g opts m))).
+  Proof.
+    rewrite (stages_prog_shape (node_prog is_stream g opts) (node_fails opts) stages)
+      by (intros; apply node_prog_fails).
+    rewrite flatten_seq_list. intros H. apply in_concat in H. destruct H as (l & Hl & Hol).
+    rewrite map_map in Hl. apply in_map_iff in Hl. destruct Hl as (st & <- & Hst).
+    rewrite flatten_par_list in Hol. apply in_concat in Hol. destruct Hol as (l2 & Hl2 & Hol2).
+    rewrite map_map in Hl2. apply in_map_iff in Hl2. destruct Hl2 as (m & <- & Hm).
+    apply in_split in Hst. destruct Hst as (E1 & E2 & HE).
+    apply in_split in Hm. destruct Hm as (s1 & s2 & ->).
+    exists E1, s1, m, s2, E2. auto.
+  Qed.
+
+  Lemma body_ok g ok opts stages ss T c_g :
+    Forall (Forall node_ok_stmt) stages ->
+    lookup g (ss_ctxs ss) = Some c_g ->
+    traces (fst (graph_body_prog is_stream g ok (map (map (node_prog is_stream g opts)) stages)))
+           (filter (touches (g :: stages_uids stages)) T) ->
+    NoDup (g :: stages_uids stages) ->
+    ok_on w (touches (g :: stages_uids stages)) ss T.
+  Proof.
+    intros IH Hg HT ND A o B E Hf.
+    apply NoDup_cons_iff in ND. destruct ND as [Hgk NDk].
+    assert (Hin : In o (filter (touches (g :: stages_uids stages)) T)).
+    { apply filter_In. split; auto. rewrite E. apply in_or_app. right. left. auto. }
+    apply (traces_in _ _ HT) in Hin.
+    assert (Hcases : (exists t, o = OOn g t) \/
+              exists E1 s1 m s2 E2, ok = true /\ exec_st (node_fails opts) stages = E1 ++ (s1 ++ m :: s2) :: E2 /\
+                                    In o (flatten (fst (node_prog is_stream g opts m)))).
+    { unfold graph_body_prog in Hin. destruct ok; cbn [negb fst] in Hin.
+      - cbn [flatten app] in Hin. destruct Hin as [<-|Hin]; [left; eauto|].
+        apply in_app_or in Hin. destruct Hin as [Hin|[<-|[]]]; [|left; eauto].
+        right. apply stages_prog_in in Hin. destruct Hin as (E1 & s1 & m & s2 & E2 & HE & Ho).
+        exists E1, s1, m, s2, E2. auto.
+      - rewrite flatten_atoms in Hin. destruct Hin as [<-|[<-|[]]]; left; eauto. }
+    destruct Hcases as [[t ->]|(E1 & s1 & m & s2 & E2 & -> & HE & Ho)].
+    - apply (ok_on_ons w g ss T c_g Hg A (OOn g t) B E). simpl. apply N.eqb_refl.
+    - assert (Hst : In (s1 ++ m :: s2) stages).
+      { apply (exec_st_incl (node_fails opts)). rewrite HE. apply in_or_app. right. left. auto. }
+      assert (Hm : In m (s1 ++ m :: s2)) by (apply in_or_app; right; left; auto).
+      pose proof (FF_in _ _ _ _ IH Hst Hm) as IHm.
+      assert (Hsub : forall u, In u (uids m) -> In u (stages_uids stages))
+        by (intros u Hu; eapply in_stages_uids; eauto).
+      apply (IHm g opts ss T c_g Hg) with (T1 := A) (T2 := B); auto.
+      + assert (E0 : filter (touches (uids m)) T = filter (touches (uids m)) (filter (touches (g :: stages_uids stages)) T)).
+        { symmetry. apply filter_filter_incl. intros o' Ho'. apply touches_In in Ho'. apply touches_In.
+          right. auto. }
+        rewrite E0. apply (proj_traces _ _ _ _ HT).
+        unfold graph_body_prog. cbn [negb fst].
+        apply SA_seq_r.
+        { intros o' [<-|[]]. apply touches_false. simpl. intros Hin'. apply Hgk. auto. }
+        apply SA_seq_l.
+        { eapply child_sub_at; eauto. }
+        { intros o' [<-|[]]. apply touches_false. simpl. intros Hin'. apply Hgk. auto. }
+      + unfold stages_uids in NDk.
+        apply (NoDup_flat_map_elem uids (s1 ++ m :: s2) m); auto.
+        apply (NoDup_flat_map_elem (flat_map uids) stages); auto.
+      + apply touches_In. eapply node_prog_units; eauto.
+  Qed.
+
+  Theorem node_ok n : node_ok_stmt n.
+  Proof.
+    induction n as [uid key inf natives fails|uid key|uid key inf stages IH|uid key inf calls] using gnode_ind';
+      intros parent opts ss T c_p Hp HT ND.
+    - cbn [node_prog fst uids] in *. apply traces_atoms in HT.
+      apply (unit_ok w uid (OAppend (Some parent) uid inf (designated key opts))
+               [start_timing_of (pick_native is_stream natives);
+                if fails then TError else end_timing_of (pick_native is_stream natives)] ss T parent c_p);
+        [left; eauto | exact Hp | exact HT].
+    - cbn [node_prog fst uids] in *. inversion HT as [|o Ho| |]; subst.
+      apply (unit_ok w uid (OAppend (Some parent) uid 0%N (designated key opts)) [] ss T parent c_p);
+        [left; eauto | exact Hp | simpl; symmetry; assumption].
+    - cbn [node_prog fst uids] in *. fold (stages_uids stages) in *.
+      apply traces_seq_atom in HT. destruct HT as (tb & HF & Htb).
+      destruct (filter_split _ _ _ _ HF) as (T1 & T2 & -> & F1 & F2).
+      apply ok_on_app; [now apply ok_on_none|].
+      destruct (lookup_some_stable w T1 ss parent c_p Hp) as [cp' Hp'].
+      apply ok_on_cons.
+      + intros _. simpl. now rewrite Hp'.
+      + assert (Hu : exists cu, lookup uid (ss_ctxs (sstep w (run ss T1) (OAppend (Some parent) uid inf (designated key opts)))) = Some cu).
+        { simpl. rewrite Hp'. simpl. rewrite N.eqb_refl. eauto. }
+        destruct Hu as [cu Hu].
+        rewrite <- F2 in Htb.
+        eapply body_ok; eauto.
+    - (* a ToolsNode *)
+      cbn [node_prog fst uids] in *.
+      change (map (fun c : ukey * info * N * bool => fst (fst (fst c))) calls) with (map (call_unit) calls) in *.
+      set (U := uid :: map call_unit calls) in *.
+      apply traces_seq_atom in HT. destruct HT as (tb & HF & Htb).
+      destruct (filter_split _ _ _ _ HF) as (T1 & T2 & -> & F1 & F2).
+      apply ok_on_app; [now apply ok_on_none|].
+      destruct (lookup_some_stable w T1 ss parent c_p Hp) as [cp' Hp'].
+      apply ok_on_cons; [intros _; simpl; now rewrite Hp'|].
+      set (ss1 := sstep w (run ss T1) (OAppend (Some parent) uid inf (designated key opts))).
+      assert (Hu : exists cu, lookup uid (ss_ctxs ss1) = Some cu).
+      { unfold ss1. simpl. rewrite Hp'. simpl. rewrite N.eqb_refl. eauto. }
+      destruct Hu as [cu0 Hu].
+      rewrite <- F2 in Htb.
+      apply NoDup_cons_iff in ND. destruct ND as [Hk NDk].
+      set (p3 := pick_native is_stream 3) in *.
+      set (body := PSeq (PAtom (OOn uid (start_timing_of p3)))
+                     (PSeq (par_list (map (fun c0 => atoms (call_ops is_stream uid c0)) calls))
+                        (PAtom (OOn uid (if existsb call_fails calls then TError else end_timing_of p3))))) in *.
+      intros A o B E Hf.
+      assert (Hin : In o (filter (touches U) T2)).
+      { apply filter_In. split; auto. rewrite E. apply in_or_app. right. left. auto. }
+      apply (traces_in _ _ Htb) in Hin. unfold body in Hin. cbn [flatten app] in Hin.
+      assert (Hcases : (exists t, o = OOn uid t) \/ exists c1 c0 c2, calls = c1 ++ c0 :: c2 /\ In o (call_ops is_stream uid c0)).
+      { destruct Hin as [<-|Hin]; [left; eauto|].
+        apply in_app_or in Hin. destruct Hin as [Hin|[<-|[]]]; [|left; eauto].
+        right. rewrite flatten_par_list, map_map in Hin. apply in_concat in Hin.
+        destruct Hin as (l & Hl & Hol). apply in_map_iff in Hl. destruct Hl as (c0 & <- & Hc0).
+        rewrite flatten_atoms in Hol. apply in_split in Hc0. destruct Hc0 as (c1 & c2 & ->). eauto. }
+      destruct Hcases as [[t ->]|(c1 & c0 & c2 & Hcalls & Ho)].
+      + apply (ok_on_ons w uid ss1 T2 cu0 Hu A (OOn uid t) B E). simpl. apply N.eqb_refl.
+      + destruct c0 as [[[cu cinf] natives] fails].
+        assert (HcuU : In cu U).
+        { right. rewrite Hcalls, map_app. apply in_or_app. right. left. reflexivity. }
+        assert (Hcu_ne : cu <> uid).
+        { intros ->. apply Hk. rewrite Hcalls, map_app. apply in_or_app. right. left. reflexivity. }
+        assert (Hsub : sub_at (touches [cu]) body (atoms (call_ops is_stream uid (cu, cinf, natives, fails)))).
+        { unfold body. apply SA_seq_r.
+          { intros o' [<-|[]]. apply touches_false. simpl. intros [E'|[]]. congruence. }
+          apply SA_seq_l.
+          2:{ intros o' [<-|[]]. apply touches_false. simpl. intros [E'|[]]. congruence. }
+          rewrite Hcalls, map_app. cbn [map].
+          assert (Hother : forall c', In c' (c1 ++ c2) -> nof (touches [cu]) (atoms (call_ops is_stream uid c'))).
+          { intros c' Hc' o' Ho'. rewrite flatten_atoms in Ho'. apply (call_ops_units is_stream) in Ho'.
+            apply touches_false. rewrite Ho'. simpl. intros [E'|[]].
+            rewrite Hcalls, map_app in NDk. cbn [map] in NDk.
+            apply in_app_or in Hc'. destruct Hc' as [Hc'|Hc'].
+            - apply (NoDup_app_disj _ _ cu NDk); [apply in_map_iff; eauto | left; reflexivity].
+            - apply NoDup_app_r in NDk. apply NoDup_cons_iff in NDk. destruct NDk as [Hn _].
+              apply Hn. apply in_map_iff. eauto. }
+          apply sub_at_par_list.
+          - apply Forall_forall. intros q Hq. apply in_map_iff in Hq. destruct Hq as (c' & <- & Hc').
+            apply Hother. apply in_or_app. auto.
+          - apply SA_here. intros o' Ho'. rewrite flatten_atoms in Ho'. apply (call_ops_units is_stream) in Ho'.
+            apply touches_In. rewrite Ho'. left. reflexivity.
+          - apply Forall_forall. intros q Hq. apply in_map_iff in Hq. destruct Hq as (c' & <- & Hc').
+            apply Hother. apply in_or_app. auto. }
+        pose proof (proj_traces _ _ _ _ Htb Hsub) as Hc.
+        apply traces_atoms in Hc.
+        assert (E0 : filter (touches [cu]) (filter (touches U) T2) = filter (touches [cu]) T2).
+        { apply filter_filter_incl. intros o' Ho'. apply touches_In in Ho'. apply touches_In.
+          destruct Ho' as [<-|[]]. exact HcuU. }
+        rewrite E0 in Hc.
+        apply (unit_ok w cu (OReuse uid cu cinf)
+                 [start_timing_of (pick_native is_stream natives);
+                  if fails then TError else end_timing_of (pick_native is_stream natives)]
+                 ss1 T2 uid cu0) with (T1 := A) (T2 := B); auto.
+        * right. eauto.
+        * apply touches_In. apply (call_ops_units is_stream) in Ho. rewrite Ho. left. reflexivity.
+  Qed.
+End EngineOk.
+
+(* In every schedule of a graph run every operation finds the context it needs: the model
+   never flags the run (no On on a context that does not exist yet). *)
+Theorem engine_never_flagged w is_stream g ginf opts stages t :
+  NoDup (g :: stages_uids stages) ->
+  traces (graph_prog is_stream g ginf opts stages) t ->
+  st_bad (run_script true w t) = false.
+Proof.
+  intros ND HT.
+  destruct (script_refines_spec w t) as (Bd & _ & _). rewrite Bd. clear Bd.
+  unfold graph_prog in HT. apply traces_seq_atom in HT. destruct HT as (tb & -> & Htb).
+  unfold run_spec. cbn [run_spec_from fold_left].
+  change (fold_left (sstep w) tb (sstep w sstate0 (OAppend None g ginf (undesignated opts))))
+    with (run_spec_from w (sstep w sstate0 (OAppend None g ginf (undesignated opts))) tb).
+  set (ss1 := sstep w sstate0 (OAppend None g ginf (undesignated opts))).
+  assert (Lu : exists cu, lookup g (ss_ctxs ss1) = Some cu).
+  { unfold ss1. simpl. rewrite N.eqb_refl. eauto. }
+  destruct Lu as [cu Lu].
+  assert (Hall : filter (touches (g :: stages_uids stages)) tb = tb).
+  { apply filter_all. intros o Ho. apply touches_In. apply (traces_in _ _ Htb) in Ho.
+    eapply body_prog_units; eauto. }
+  assert (IH : Forall (Forall (node_ok_stmt w is_stream)) stages).
+  { apply Forall_forall. intros st _. apply Forall_forall. intros m _. apply node_ok. }
+  rewrite <- Hall in Htb.
+  pose proof (body_ok w is_stream g (graph_ok stages opts) opts stages ss1 tb cu IH Lu Htb ND) as OK.
+  rewrite all_ok_bad.
+  - reflexivity.
+  - intros A o B E _. apply (OK A o B E).
+    assert (Hin : In o tb) by (rewrite E; apply in_or_app; right; left; auto).
+    rewrite <- Hall in Hin. apply filter_In in Hin. apply Hin.
 Qed.
